@@ -23,7 +23,7 @@ class PosDecomposer(DecomposerStub):
 def trace_eof_rotator(power, cplx, post_compute=True, lazy=False):
     names, xrf, npf = std_names(Decomposer=PosDecomposer, promax=lib.promax_stub(power), argsort_dask=lib.argsort_dask,
                                 get_deterministic_sign_multiplier=lib.sign_multiplier)
-    xrf.ufuncs = {npf.linalg.inv: lib.ufunc_inv}
+    xrf.ufuncs = {npf.linalg.inv: lib.ufunc_inv, npf.linalg.pinv: lib.ufunc_pinv}
 
     def run():
         assume(n.z >= 2)
